@@ -13,7 +13,7 @@ func init() {
 	registerProperty(&Property{ID: "C02", DesignRef: "DESIGN.md §4 C02, §3.3",
 		Rules:      []string{"TS-BOUNDREAD", "TS-ACK", "TS-SERVE", "TS-CONTENT-FIRST#push", "TS-STORED-THEN-INDEXED#push", "TS-REFUSE#push", "TS-REFUSE#upload", "SH-WORKLIST#complete", "SH-SCAN-QUEUE", "SH-CONVERT-MARK#loader", "SH-WORKLIST#skip-set", "SH-SWEEP-GUARD#safety", "SH-ROOTS#safety", "TS-TAGKEEP", "TB-MEDIATYPE", "FS-CLEANUP"},
 		Technique:  techPath,
-		Decided:    "the manifest body is read through a bound above the limit and an oversized body is refused on every path to the insert (never stored cut); no 2xx / `return nil` is reachable when a commit call failed, was not tested or was discarded (abstract error values tracked per path); content is stored before the index entry naming it; served headers and body come from the recorded descriptor; the child descriptors of nested indexes are rebuilt completely on every index load (worklist discipline of the scan), so manifests acknowledged by digest stay addressable after a restart; the collector removes nothing a retained manifest references (skip-set discipline, sweep guards and root selection shared with C05), so acknowledged content disappears only by policy.",
+		Decided:    "the manifest body is read through a bound above the limit and an oversized body is refused on every path to the insert (never stored cut); no 2xx / `return nil` is reachable when a commit call failed, was not tested or was discarded (abstract error values tracked per path); content is stored before the index entry naming it; served headers and body come from the recorded descriptor; the child descriptors of nested indexes are rebuilt completely on every index load (worklist discipline of the scan), so manifests acknowledged by digest stay addressable after a restart; the collector removes nothing a retained manifest references (skip-set discipline, sweep guards and root selection shared with C05), so acknowledged content disappears only by policy; every entry the index classification accepts (OCI index and Docker manifest list) is queued for that child scan.",
 		NotDecided: "byte identity after arbitrary histories; range arithmetic (net/http.ServeContent); the full retention policy matrix (C05).",
 	})
 	registerProperty(&Property{ID: "C03", DesignRef: "DESIGN.md §4 C03, §3.4",
@@ -25,7 +25,7 @@ func init() {
 	registerProperty(&Property{ID: "C04", DesignRef: "DESIGN.md §4 C04, §3.3, §3.6",
 		Rules:      []string{"TS-EXISTS", "TS-MT-CONSISTENT", "TS-REFTAG", "TS-HASHBYTES#expected-digest", "TS-REFUSE#push", "TB-MEDIATYPE", "TS-DETECT", "PV-PATH#digest", "TB-GRAMMAR#tag", "TS-TOMBSTONE", "TB-RESERVED"},
 		Technique:  techPath + "; table agreement on constants",
-		Decided:    "every path to the index insert passes the parse ok-edge and the ok-edge of an existence verifier that covers every Descriptor field of the parsed struct in the same repository; the declared media type is compared with the body's; reference is a grammar-checked tag or the compared digest; media-type tables agree; nothing mutating is reachable after any refusal; mutators sit behind the read-only guard.",
+		Decided:    "every path to the index insert passes the parse ok-edge and the ok-edge of an existence verifier that covers every Descriptor field of the parsed struct in the same repository; the declared media type is compared with the body's; reference is a grammar-checked tag or the compared digest; media-type tables agree; nothing mutating is reachable after any refusal; mutators sit behind the read-only guard; the body-kind detector gives up (which skips the comparison) only on paths that found every kind marker it reads empty.",
 		NotDecided: "well-formedness beyond what the JSON decoder and the reference checks establish; equality of the observable state before/after a refusal as a value.",
 	})
 	registerProperty(&Property{ID: "C05", DesignRef: "DESIGN.md §4 C05, §3.7, §3.2",
@@ -37,7 +37,7 @@ func init() {
 	registerProperty(&Property{ID: "C06", DesignRef: "DESIGN.md §4 C06, §3.7",
 		Rules:      []string{"SH-PASS-LOOP", "TS-SAVE#collector", "SH-WORKLIST#term", "SH-WORKLIST#skip-set", "SH-MARK-EXHAUSTIVE", "SH-SWEEP-GUARD", "SH-ROOTS", "SH-MODSTAMP", "FS-CLEANUP#fresh", "PV-PATH#collector", "TS-LOADSTAMP"},
 		Technique:  "loop-shape and path rules on go/ssa and the typed AST",
-		Decided:    "a failing repository does not end the store-wide pass (no path from the failure edge leaves the loop); a collector-modified index is saved on all paths; the mark and scan loops terminate on any input (progress + bounded growth); index entries without a blob are pruned; untagged entries that are old or outside any grace period are not roots when untagged collection is on (path conditions of the root selection); ‘exactly the garbage’ also means nothing retained is removed: the mark phase's skip-set discipline, field exhaustiveness and the sweep guards (shared with C05).",
+		Decided:    "a failing repository does not end the store-wide pass (no path from the failure edge leaves the loop); a collector-modified index is saved on all paths; the mark and scan loops terminate on any input (progress + bounded growth); index entries without a blob are pruned; untagged entries that are old or outside any grace period are not roots when untagged collection is on (path conditions of the root selection); ‘exactly the garbage’ also means nothing retained is removed: the mark phase's skip-set discipline, field exhaustiveness and the sweep guards (shared with C05); the ‘not modified since’ window of the scheduled pass is derived from the tick before, and the time carried from one pass to the next was taken before the pass ran (nothing modified while a pass runs falls outside every later window).",
 		NotDecided: "exactness of the sweep as a value; idempotence of a second pass; empty-repository removal semantics (its safety is under C10).",
 	})
 	registerProperty(&Property{ID: "C07", DesignRef: "DESIGN.md §4 C07, §3.3",
@@ -49,7 +49,7 @@ func init() {
 	registerProperty(&Property{ID: "C08", DesignRef: "DESIGN.md §4 C08, §3.3, §3.2",
 		Rules:      []string{"TS-RANGE", "LK-CTA", "TS-CANCEL", "TS-REFUSE#upload", "PV-PATH#session", "FS-TEMP", "TS-CLEANUP", "TS-TIMER", "LK-GUARD-UPLOAD", "SH-RANGE-HDR", "TS-LOWWATER", "TS-PRUNE-TOTAL", "LK-CTA-UPLOAD", "TS-OPT-GUARD"},
 		Technique:  techPath + "; lock analysis for check-then-act",
-		Decided:    "every write into an existing session is dominated by the Content-Range check and the state-offset equality against Size(); check and write under one lock (fails today: known finding); a failed Verify cancels; every exit of both commit methods unregisters the session; a refused chunk reaches no write; session ids never reach a path; the session cleanup removes the temp file; cache entries are only dropped after their cleanup; the expiry timer of the session cache is re-armable after it was stopped (a stopped timer is never left in the nil-tested field).",
+		Decided:    "every write into an existing session is dominated by the Content-Range check and the state-offset equality against Size(); check and write under one lock (fails today: known finding); a failed Verify cancels; every exit of both commit methods unregisters the session; a refused chunk reaches no write; session ids never reach a path; the session cleanup removes the temp file; cache entries are only dropped after their cleanup; the expiry timer of the session cache is re-armable after it was stopped (a stopped timer is never left in the nil-tested field, and the function the timer runs leaves the field re-armed, cleared or nil once it has gone through the entries).",
 		NotDecided: "the count bound (asynchronous pruning, value-level); that status reports exactly the received bytes; expiry timing.",
 	})
 	registerProperty(&Property{ID: "C09", DesignRef: "DESIGN.md §4 C09, §3.5",
@@ -67,7 +67,7 @@ func init() {
 	registerProperty(&Property{ID: "C11", DesignRef: "DESIGN.md §4 C11, §3.2",
 		Rules:      []string{"LK-ATOMIC", "LK-RMW", "LK-REGISTRY", "LK-COPY", "TB-DEEP", "LK-GUARD-STORE", "TS-PAGE#snapshot", "TS-EXPIRE-ATOMIC", "TS-GC-FRESH"},
 		Technique:  techLock,
-		Decided:    "index load-modify-save is one uninterrupted critical section in both stores; the handler-level read-modify-write of a referrers response is covered by one mutex; handlers only see deep copies taken under the mutex; every shared field has a common lock.",
+		Decided:    "index load-modify-save is one uninterrupted critical section in both stores; the handler-level read-modify-write of a referrers response is covered by one mutex; handlers only see deep copies taken under the mutex; every shared field has a common lock; when the index a referrers update works on is handed in by the caller, the mutex is held from the caller's read to the call.",
 		NotDecided: "linearizability of histories; multi-call handlers (push = insert + referrers update) being atomic as a whole.",
 	})
 	registerProperty(&Property{ID: "C12", DesignRef: "DESIGN.md §4 C12, §3.2",
@@ -81,7 +81,7 @@ func init() {
 	registerProperty(&Property{ID: "C13", DesignRef: "DESIGN.md §4 C13, §3.2",
 		Rules:       []string{"LK-GUARD", "LK-GLOBALS", "LK-COPY", "TB-DEEP", "TS-POOL", "LK-RETAIN"},
 		Technique:   "static lockset (Eraser/RacerD style) over the lock engine's per-access held sets, with publication analysis",
-		Decided:     "every field of the server, store and cache structs that is written after publication is accessed under one common mutex in every calling context (constructor accesses on unpublished objects exempt); values leaving a critical section are deep copies (every reference field of the copied types re-allocated).",
+		Decided:     "every field of the server, store and cache structs that is written after publication is accessed under one common mutex in every calling context (constructor accesses on unpublished objects exempt); values leaving a critical section are deep copies (every reference field of the copied types re-allocated, skipped only on a nil test); a descriptor handed to a function that stores it into the shared index is not read after the repository mutex is released.",
 		NotDecided:  "races on objects reachable only through pointers the lockset model does not track; library internals; ordering by channel / wait-group happens-before is not credited.",
 		Assumptions: []string{"named exception: Server.store is written only by Close/Shutdown whose contract forbids concurrent use"},
 	})
@@ -94,7 +94,7 @@ func init() {
 	registerProperty(&Property{ID: "C15", DesignRef: "DESIGN.md §4 C15, §3.6, §3.4",
 		Rules:      []string{"TB-ERRCODE", "TB-ERRPAIR", "TB-ERRWRAP", "SH-SIBLING-STORE#sentinels", "PV-BOUNDS", "PV-ROUTE", "PV-REPO", "TB-NILCONF", "TB-GRAMMAR", "TS-POOL", "LK-HOLD"},
 		Technique:  "table agreement on typed constants; condition→code classification on go/ssa; difference-bound range proof",
-		Decided:    "the error constructors equal the OCI code table; every error document follows a constant 4xx and the same condition maps to the same (registered) code at all sibling sites; request-derived integers are proven in range; only grammar-checked repository names are routed; dereferenced settings cannot be nil.",
+		Decided:    "the error constructors equal the OCI code table; every error document follows a constant 4xx and the same condition maps to the same (registered) code at all sibling sites; request-derived integers are proven in range, constant indexes into decoded or cached lists are covered by a length test at the read or at every producer; only grammar-checked repository names are routed; dereferenced settings cannot be nil.",
 		NotDecided: "panic freedom in general (index arithmetic not derived from request integers); 5xx-vs-4xx classification of store errors.",
 	})
 	registerProperty(&Property{ID: "C16", DesignRef: "DESIGN.md §4 C16, §3.4",
@@ -106,13 +106,13 @@ func init() {
 	registerProperty(&Property{ID: "C17", DesignRef: "DESIGN.md §4 C17, §3.7",
 		Rules:      []string{"LK-SELF#ingest", "SH-IDEMPOTENT", "SH-WORKLIST#term", "SH-WORKLIST#complete", "SH-CONVERT-MARK", "TS-CONTENT-FIRST#ingest", "TS-STORED-THEN-INDEXED#ingest", "TS-SAVE#ingest", "SH-GROUP-KEY", "TS-REFDESC", "SH-SWAP-REMOVE", "TB-GRAMMAR#anchor", "SH-CONVERT-ATOMIC", "SH-CONVERT-MERGE"},
 		Technique:  "lock analysis on the conversion's call chain; shape and path rules on go/ssa and the typed AST",
-		Decided:    "the conversion cannot block on a mutex it already holds; re-creating an already stored response is tolerated (repeatability after interruption); the conversion and child-scan loops terminate; the converted marker is set on every normal exit and the modified result leads to a save; a regenerated response is stored before it is indexed.",
+		Decided:    "the conversion cannot block on a mutex it already holds; re-creating an already stored response is tolerated (repeatability after interruption); the conversion and child-scan loops terminate; the converted marker is set on every normal exit and the modified result leads to a save; a regenerated response is stored before it is indexed; no failure return is reachable from the removal of a fallback tag; every referrers response the conversion adds to the index is entered into the table the regeneration consults (an adopted response is extended, not replaced).",
 		NotDecided: "losslessness; grouping by actual subject; equality of the results of repeated conversions (value-level).",
 	})
 	registerProperty(&Property{ID: "C19", DesignRef: "DESIGN.md §4 C19, §3.6",
 		Rules:      []string{"TB-FLAGS", "TB-DEFAULTS", "TB-NILCONF", "TB-ROUTE", "LK-SHUTDOWN", "LK-GUARD-SERVER", "TS-SHUTDOWN", "TS-CONF-LIST", "FS-RO", "TS-REFERRER-CALL#setting", "SH-CONVERT-MARK#setting", "PV-CLIENT-KEY"},
 		Technique:  "table agreement on the typed AST (flags, option fields, configuration paths, defaults); guard dominance in the router; lock analysis of the shutdown path",
-		Decided:    "flag → option → configuration path wiring equals the documented table, flag defaults equal SetDefaults defaults, defaulting never overwrites a set value; every mutating route is gated by its switch; the rate-limit entry is updated under one mutex; the shutdown path is free of lock cycles and closes the store on every path on which the HTTP shutdown succeeded.",
+		Decided:    "flag → option → configuration path wiring equals the documented table, flag defaults equal SetDefaults defaults, defaulting never overwrites a set value; every mutating route is gated by its switch; the rate-limit entry is updated under one mutex; the shutdown path is free of lock cycles and closes the store on every path on which the HTTP shutdown succeeded; the client address the rate limiter keys by is never cut at the first colon of RemoteAddr (IPv6 clients keep distinct counters).",
 		NotDecided: "per-second accounting; signal handling outcome; every-combination behaviour as values.",
 	})
 	registerProperty(&Property{ID: "C20", DesignRef: "DESIGN.md §4 C20, §3.3",
